@@ -118,10 +118,15 @@ func VerifStream() {
 	lastFinish := ""
 	inTok, outTok := 0, 0
 	toolAfterTool := false
+	hostile := false        // the sequence contains a fragment outside the "as real backends emit them" grammar
 	usageOnlyChunk := false // usage arrived on a chunk whose choices list is empty (OpenAI's include_usage shape)
 
 	for k := 0; k < K; k++ {
-		kind := gosym.Choice("chunk", 6)
+		nkinds := 6
+		if gosym.Param("HOSTILE") == 1 {
+			nkinds = 7 // plus fragments no well-behaved backend sends (C20 / the no-crash clause of C13)
+		}
+		kind := gosym.Choice("chunk", nkinds)
 		delta := map[string]interface{}{}
 		choice := map[string]interface{}{"index": float64(0), "delta": delta}
 		chunk := map[string]interface{}{"id": "chatcmpl-1", "model": "m1", "choices": []interface{}{choice}}
@@ -156,6 +161,11 @@ func VerifStream() {
 			delta["tool_calls"] = []interface{}{map[string]interface{}{"index": float64(nextTool - 1),
 				"function": map[string]interface{}{"arguments": args}}}
 			blocks[len(blocks)-1].tool.args += args
+		case 6: // arguments for a tool index that was never announced (whatever block is open)
+			idxs := []float64{float64(nextTool), 7}
+			delta["tool_calls"] = []interface{}{map[string]interface{}{"index": idxs[gosym.Choice("orphan_index", 2)],
+				"function": map[string]interface{}{"arguments": "{"}}}
+			hostile = true
 		case 3: // finish chunk with empty delta
 			fin := zzFinish[gosym.Choice("finish", len(zzFinish))]
 			choice["finish_reason"] = fin
@@ -202,6 +212,12 @@ func VerifStream() {
 		state.messageStartSent = true
 	}
 	gosym.Assert(t.finalizeStream(state, w, rc, nil) == nil, "the stream can be finalised")
+	if hostile {
+		// no-crash / termination clause only: the stream ended without a panic and was finalised
+		gosym.Assert(w.parse(), "every write is one well-formed SSE event with a JSON object payload")
+		gosym.Reach("hostile-sequence-survived")
+		return
+	}
 
 	// ---- oracle: strict Anthropic SSE automaton + losslessness
 	gosym.Assert(w.parse(), "every write is one well-formed SSE event with a JSON object payload")
